@@ -107,6 +107,10 @@ def check_decode(acc, codec, buf, cid, kind, witness_extra=None):
     if not isinstance(consumed, int) or consumed < 0 or consumed > len(buf):
         if bl is not None and int_ok(bl) and int(bl) < 0:
             acc.violation("negative-bodylength-consumed-out-of-range", f"consumed={consumed} len={len(buf)}", w, cid)
+        elif isinstance(consumed, int) and consumed > len(buf) and buf.find(b"8=FIX.") > 0 and bl is not None and int_ok(bl) and \
+                len(f[0][0]) + len(f[0][1] or "") + len(bl) + 12 + int(bl) > len(buf) - buf.find(b"8=FIX."):
+            # frame start behind a junk prefix, frame itself incomplete, completeness tested against junk + frame
+            acc.violation("consumed-exceeds-buffer-after-junk-prefix", f"consumed={consumed} len={len(buf)} junk={buf.find(b'8=FIX.')}", w, cid)
         else:
             acc.violation("consumed-out-of-range", f"consumed={consumed} len={len(buf)}", w, cid)
     if (msg is None) != (raw is None):
@@ -232,6 +236,10 @@ def grammar_cases():
     out.append(("marker9-then-good", b"8=FIX.4.4\x019=5\x01" + good))
     out.append(("good-good", good + good))
     out.append(("junk-good", b"\x00\x01garbage=\x01" + good))
+    # junk prefix + frame that is not complete yet (the junk is longer than what is missing)
+    for junk in (b"somejunk\n", b"\x00\x01garbage=\x0110=000\x01" * 2, b"x" * 64):
+        for miss in (1, 5, 9, 20, len(good) - 16):
+            out.append((f"junk{len(junk)}-partial-minus{miss}", junk + good[:len(good) - miss]))
     return out
 
 
@@ -274,6 +282,10 @@ def live_cases(rnd, n):
             ck = int(fixwire.get(fixwire.parse(fr), 10))
             mal = fr[:-4] + b"%03d" % ((ck + rnd.randrange(1, 255)) % 256) + b"\x01"
             out.append(("bad-checksum", mal, True))
+        elif r < 0.56:
+            al = b"abcXYZ=\x01\x000123 \n"
+            mal = bytes(rnd.choice(al) for _ in range(rnd.randrange(8, 70)))
+            out.append((f"junk-prefix:{rnd.randrange(1, 60)}", mal, True))
         elif r < 0.8:
             k, mal = rnd.choice(g)
             out.append(("grammar:" + k, mal, False))
@@ -304,7 +316,12 @@ async def live_one(acc, clock, kind, mal, must_all, chunking, cid):
         tap0 = len(ep.vf_tap)
         tail = [peer.frame("D", None, [(11, f"t{i}"), (58, "x" * 60)]) for i in range(8)]
         stream = mal + b"".join(tail)
-        if chunking == "one":
+        if kind.startswith("junk-prefix:"):
+            # marker-free junk and the first part of the first valid frame arrive in one read, the rest in the next
+            k = max(1, min(int(kind.split(":")[1]), len(tail[0]) - 20))
+            chunks = [mal + tail[0][:-k], tail[0][-k:] + b"".join(tail[1:])]
+            w["chunking"] = f"junk+frame[:-{k}] | rest"
+        elif chunking == "one":
             chunks = [stream]
         elif chunking == "two":
             chunks = [mal, b"".join(tail)]
@@ -345,7 +362,18 @@ async def live_one(acc, clock, kind, mal, must_all, chunking, cid):
             exs = " ".join(ep.vf_log.exceptions)
             f = lenient_fields(mal)
             bl = f[1][1] if len(f) > 1 and f[1][0] == "9" else None
-            if "invalid literal for int" in exs and bl is not None and not int_ok(bl):
+            # the wedge is "decode raises on the bytes the read loop never drops": ask the decoder for the exception
+            # on exactly those bytes and name the mechanism with the same classifier oracle (a) uses
+            redo = None
+            if exs:
+                try:
+                    ep._codec.decode(bytes(ep._msg_buffer))
+                except Exception as e:  # noqa: BLE001
+                    redo = classify_exception(bytes(ep._msg_buffer), e)
+                    w["decode_of_stuck_buffer"] = f"{type(e).__name__}: {e}"
+            if redo is not None and not redo.endswith(":other"):
+                key = redo
+            elif "invalid literal for int" in exs and bl is not None and not int_ok(bl):
                 key = "raises:bodylength-not-integer"
             elif "invalid literal for int" in exs and any(t == "10" and v is not None and not int_ok(v) for t, v in lenient_fields(ep._msg_buffer)):
                 key = "raises:checksum-not-integer"
@@ -368,7 +396,8 @@ async def live_one(acc, clock, kind, mal, must_all, chunking, cid):
             exp = [f"t{i}" for i in range(8)]
             resend = [f for f in E.parse_tap(ep.vf_tap.frames(tap0)) if not isinstance(f, Exception) and fixwire.get(f, 35) in ("2", "5")]
             if got[:8] != exp or resend:
-                acc.violation("live-reader-lost-frames-after-exact-length-corruption",
+                acc.violation("live-reader-lost-frame-split-after-junk-prefix" if kind.startswith("junk-prefix:") else
+                              "live-reader-lost-frames-after-exact-length-corruption",
                               f"delivered {got[:10]} expected {exp}; resend/logout frames={len(resend)}", w, cid)
     except SpinAbort as e:
         acc.violation("live-reader-spins", str(e), w, cid)
